@@ -69,12 +69,12 @@ theorem applyLog_other (es : List LogEntry) (db : DB) :
       · exact c k r h
 
 /-- what `NewDBidx` leaves, for a directory whose log (if any) carries the snapshot's sequence number -/
-structure OpenState (F : FS) (X : DB) : Prop where
+structure OpenState (F : FS) (vol : Bool) (X : DB) : Prop where
   index : X.index = diskIndex F
   failed : X.failed = none
   pending : X.pending = []
   datOpen : X.datOpen = false
-  volatile : X.volatile = false
+  volatile : X.volatile = vol
   verSeq : X.verSeq = snapVer F
   log : X.fs.log = F.log
   logOpen : X.logOpen = true ↔ F.log ≠ none
@@ -126,13 +126,13 @@ theorem checkIdxFile_data (f : Option Bytes) (sv : Nat) (d : Bytes) (h : checkId
     all_goals rfl
 
 /-- what loaddat leaves -/
-structure DatState (F : FS) (a : DB) (used : List Nat) : Prop where
+structure DatState (F : FS) (vol : Bool) (a : DB) (used : List Nat) : Prop where
   index : a.index = snapBase F
   failed : a.failed = none
   pending : a.pending = []
   datOpen : a.datOpen = false
   logOpen : a.logOpen = false
-  volatile : a.volatile = false
+  volatile : a.volatile = vol
   verSeq : a.verSeq = snapVer F
   log : a.fs.log = F.log
   dats : a.fs.dats = F.dats
@@ -143,14 +143,14 @@ structure DatState (F : FS) (a : DB) (used : List Nat) : Prop where
   maxSeq : ∀ kr ∈ snapBase F, kr.2.seq ≤ a.maxSeq
   used : ∀ kr ∈ snapBase F, kr.2.seq ∈ used
 
-theorem loaddat_state (F : FS) (opts : Opts) :
-    DatState F (loaddat { fs := F, volatile := false, opts := opts }).1
-      (loaddat { fs := F, volatile := false, opts := opts }).2 := by
+theorem loaddat_state (F : FS) (vol : Bool) (opts : Opts) :
+    DatState F vol (loaddat { fs := F, volatile := vol, opts := opts }).1
+      (loaddat { fs := F, volatile := vol, opts := opts }).2 := by
   unfold loaddat
   cases hp : pickIdx F with
   | none =>
     obtain ⟨p0, p1⟩ := pickIdx_none F hp
-    simp only [show ({ fs := F, volatile := false, opts := opts } : DB).fs = F from rfl, hp]
+    simp only [show ({ fs := F, volatile := vol, opts := opts } : DB).fs = F from rfl, hp]
     have hsb : snapBase F = [] := by unfold snapBase; rw [hp]
     have hsv : snapVer F = 0 := by unfold snapVer; rw [hp]
     refine ⟨hsb.symm, rfl, rfl, rfl, rfl, rfl, hsv.symm, rfl, rfl, rfl, ?_, ?_, ?_, ?_⟩
@@ -162,8 +162,8 @@ theorem loaddat_state (F : FS) (opts : Opts) :
     · rw [hsb]; intro kr h; cases h
   | some t =>
     obtain ⟨i, sv, d⟩ := t
-    simp only [show ({ fs := F, volatile := false, opts := opts } : DB).fs = F from rfl, hp]
-    let dbE : DB := { emit ({ fs := F, volatile := false, opts := opts } : DB) "qdb.loadneweridx:removed" (.removeIdx (1 - i)) with
+    simp only [show ({ fs := F, volatile := vol, opts := opts } : DB).fs = F from rfl, hp]
+    let dbE : DB := { emit ({ fs := F, volatile := vol, opts := opts } : DB) "qdb.loadneweridx:removed" (.removeIdx (1 - i)) with
       datIdx := i, verSeq := sv }
     obtain ⟨hoth, _, hmx⟩ := memputAll_other (snapshotRecs d) dbE
     obtain ⟨hidx, _⟩ := memputAll_isetAll (snapshotRecs d) dbE
@@ -207,22 +207,22 @@ theorem loaddat_state (F : FS) (opts : Opts) :
       · cases h
       · exact List.mem_map.mpr ⟨kr, h, rfl⟩
 
-theorem open_state (F : FS) (opts : Opts) (E : List LogEntry) (hE : ∀ e ∈ E, EntryFits e)
+theorem open_state (F : FS) (vol : Bool) (opts : Opts) (E : List LogEntry) (hE : ∀ e ∈ E, EntryFits e)
     (hlog : LogState F (snapVer F) E) (hsv : snapVer F < 2^32) :
-    OpenState F (openIndex { fs := F, volatile := false, opts := opts }) := by
-  have A := loaddat_state F opts
+    OpenState F vol (openIndex { fs := F, volatile := vol, opts := opts }) := by
+  have A := loaddat_state F vol opts
   have hD : diskIndex F = applyEntriesL (snapBase F) (E.map stripE) := by
     unfold diskIndex
     rw [logEntries_of_state F (snapVer F) E hlog rfl hsv hE]
   unfold openIndex
   dsimp only
   -- the state after loadlog
-  have hB : ∃ b used, loadlog (loaddat { fs := F, volatile := false, opts := opts }).1
-        (loaddat { fs := F, volatile := false, opts := opts }).2 = (b, used) ∧
-      b.index = diskIndex F ∧ b.failed = none ∧ b.pending = [] ∧ b.datOpen = false ∧ b.volatile = false ∧
-      b.verSeq = snapVer F ∧ b.fs = (loaddat { fs := F, volatile := false, opts := opts }).1.fs ∧
+  have hB : ∃ b used, loadlog (loaddat { fs := F, volatile := vol, opts := opts }).1
+        (loaddat { fs := F, volatile := vol, opts := opts }).2 = (b, used) ∧
+      b.index = diskIndex F ∧ b.failed = none ∧ b.pending = [] ∧ b.datOpen = false ∧ b.volatile = vol ∧
+      b.verSeq = snapVer F ∧ b.fs = (loaddat { fs := F, volatile := vol, opts := opts }).1.fs ∧
       (b.logOpen = true ↔ F.log ≠ none) ∧
-      b.datIdx = (loaddat { fs := F, volatile := false, opts := opts }).1.datIdx ∧
+      b.datIdx = (loaddat { fs := F, volatile := vol, opts := opts }).1.datIdx ∧
       (∀ kr ∈ diskIndex F, kr.2.seq ≤ b.maxSeq) ∧ (∀ kr ∈ diskIndex F, kr.2.seq ∈ used) := by
     unfold loadlog
     rw [A.log]
@@ -238,7 +238,7 @@ theorem open_state (F : FS) (opts : Opts) (E : List LogEntry) (hE : ∀ e ∈ E,
       have hparse : parseLog (encLog E).length (encLog E) = E.map stripE :=
         parseLog_encLog E hE _ (encLog_length_ge E)
       rw [hparse]
-      obtain ⟨hoth, hm1, hm2⟩ := applyLog_other (E.map stripE) (loaddat { fs := F, volatile := false, opts := opts }).1
+      obtain ⟨hoth, hm1, hm2⟩ := applyLog_other (E.map stripE) (loaddat { fs := F, volatile := vol, opts := opts }).1
       unfold other at hoth
       simp only [Prod.mk.injEq] at hoth
       obtain ⟨o_fs, o_pe, o_do, _, o_vol, _, o_di, o_vs, _, o_f, _⟩ := hoth
@@ -360,9 +360,20 @@ theorem diskIndex_congr2 (F1 F2 : FS) (hp : pickIdx F1 = pickIdx F2) (hl : F1.lo
   unfold diskIndex snapBase logEntries
   rw [hp, hl, hv]
 
+/-- `load(nil)` after `NewDBidx` on a readable directory reads every record (any mode) -/
+theorem loadAll_of_openState (F : FS) (vol : Bool) (X : DB) (S : OpenState F vol X) (hR : DirReadable F) :
+    loadAll X = { X with index := mapV (loadedRec X.fs) (diskIndex F) } := by
+  have hfold := loadFold_general (diskIndex F) X S.failed (by
+    intro kr hkr
+    obtain ⟨h1, f, v, h3, h4⟩ := hR kr hkr
+    exact ⟨h1, f, v, by rw [S.dats kr hkr]; exact h3, h4⟩) []
+  unfold loadAll
+  rw [S.index, hfold]
+  simp only [S.failed, List.nil_append]
+
 /-- the invariants follow from what `NewDBidx` leaves (`OpenState`) once the records are loaded; stated for any
     state `X` so that it also applies when `NewDBidx` discarded the log (then `F` is the directory without it) -/
-theorem inv3_of_openState (F : FS) (X : DB) (S : OpenState F X) (E : List LogEntry) (hE : ∀ e ∈ E, EntryFits e)
+theorem inv3_of_openState (F : FS) (X : DB) (S : OpenState F false X) (E : List LogEntry) (hE : ∀ e ∈ E, EntryFits e)
     (hlog : LogState F (snapVer F) E) (hsv : snapVer F < 2^32) (hR : DirReadable F)
     (hmax : X.maxSeq + 1 < 2^32) :
     loadAll X = { X with index := mapV (loadedRec X.fs) (diskIndex F) } ∧
@@ -480,7 +491,7 @@ theorem open_inv3 (F : FS) (opts : Opts) (E : List LogEntry) (hE : ∀ e ∈ E, 
     (hlog : LogState F (snapVer F) E) (hsv : snapVer F < 2^32) (hR : DirReadable F)
     (hmax : (openIndex { fs := F, volatile := false, opts := opts }).maxSeq + 1 < 2^32) :
     Inv3 (openDB F false true opts) := by
-  have S := open_state F opts E hE hlog hsv
+  have S := open_state F false opts E hE hlog hsv
   obtain ⟨hload, h3⟩ := inv3_of_openState F _ S E hE hlog hsv hR hmax
   have hopen : openDB F false true opts =
       { openIndex { fs := F, volatile := false, opts := opts } with
